@@ -397,6 +397,9 @@ namespace verif {
     uint64_t distinct_key = 0; // hash of (plan shape, interleaving / crash point) for distinct counting
     bool nontrivial = false;
     std::map<std::string, int64_t> counters; // fault kinds fired, probes, steps ...
+    uint64_t evals = 1;                      // individual executions performed by this run (crash-point enumerations run many)
+    uint64_t distinct_extra = 0;             // further distinct non-trivial cases inside this run (beyond distinct_key)
+    J plan_patch;                            // keys merged into the candidate plan (e.g. the single failing crash point)
     J recorded_sched;                        // explicit schedule equivalent to what just ran (multi-actor worlds)
     void fail(const std::string &r, const std::string &d) {
       if (!violation) {
